@@ -177,7 +177,10 @@ def run(chk, prog):
     ev = Evaluator(prog)
     r = ev.eval_fn(CT.methods["run_csmc_for_normalizing_constant"], CT.module, CT)
     t = r.ret
-    okr = mentions(t, ("call", ("attr", ("call", ("attr", ("attr", SELF, "prev"), "run_csmc"), (mk_proj(("call", G("jax.random.split"), (P("key"),), ()), 1), P("latent_choices")), ()), "get_particle"), (C(-1),), ()))
+    coll_ = ("call", ("attr", ("attr", SELF, "prev"), "run_csmc"), (mk_proj(("call", G("jax.random.split"), (P("key"),), ()), 1), P("latent_choices")), ())
+    # collection.get_particle(-1), or the collection's own indexing collection[-1][0] (ParticleCollection.__getitem__ maps v -> v[idx] over (particles, weights):
+    # judged for estimate_logpdf above)
+    okr = mentions(t, ("call", ("attr", coll_, "get_particle"), (C(-1),), ())) or mentions(t, mk_proj(mk_proj(coll_, -1), 0))
     chk.require(okr, "RETAINED-SCORE", "ChangeTarget.run_csmc_for_normalizing_constant", "the retained particle is the LAST one", derived=show(t)[:200], expected="particle_collection.get_particle(-1) / log_weights[-1] (run_csmc stacks the retained particle last)", where=f"{CT.module.rel}:{CT.methods['run_csmc_for_normalizing_constant'].lineno}")
     # ---------------------------------------------------------------- SMCAlgorithm
     SA = prog.cls("SMCAlgorithm", SMC)
